@@ -31,6 +31,7 @@ func init() {
 		rtPkg + ".Assume":        rtAssume,
 		rtPkg + ".Assert":        rtAssert,
 		rtPkg + ".Tag":           rtTag,
+		rtPkg + ".Note":          rtNote,
 		rtPkg + ".Havoc":         rtHavoc,
 		rtPkg + ".NoAlias":       rtNoAlias,
 		rtPkg + ".Observe":       rtObserve,
@@ -221,6 +222,14 @@ func rtAssert(ex *Exec, fn *ssa.Function, args []Value) (Value, *Panic) {
 
 func rtTag(ex *Exec, fn *ssa.Function, args []Value) (Value, *Panic) {
 	ex.tags[argStr(args[0])] = argStr(args[1])
+	return nil, nil
+}
+
+func rtNote(ex *Exec, fn *ssa.Function, args []Value) (Value, *Panic) {
+	if ex.notes == nil {
+		ex.notes = map[string]string{}
+	}
+	ex.notes[argStr(args[0])] = argStr(args[1])
 	return nil, nil
 }
 
